@@ -438,7 +438,7 @@ const (
 // address, is written to the local connection before any tunnel byte.
 //
 //verif:contract (*~/client/proxy.BaseProxy).HandleTCPWorkConnection
-//verif:props C01 C05
+//verif:props C01 C05 C02
 func verif_HandleTCPWorkConnection(pxy *BaseProxy, workConn net.Conn, m *msg.StartWorkConn, encKey []byte) {
 	verif.Requires(pxy.baseCfg != nil && m != nil, "constructed_and_message_present")
 	enc, comp := pxy.baseCfg.Transport.UseEncryption, pxy.baseCfg.Transport.UseCompression
